@@ -9,7 +9,7 @@ def registry_oracle(e):
     prog = e["prog"].split(" | ")
     threads = [[o.split(" ") for o in t.split(",") if o] for t in prog[1:]]
     n = len(threads)
-    crash = any(op[0] in ("die", "recover", "recover_lock") for th in threads for op in th)
+    crash = any(op[0] in ("die", "die_in", "recover", "recover_lock") for th in threads for op in th)
     ptr = [0] * n
     started = [False] * n
     op_start = [None] * n
@@ -24,7 +24,7 @@ def registry_oracle(e):
             op = threads[t][ptr[t]]
             if op[0] in ("remove", "remove_lock") and int(op[1]) >= len(mine[t]):
                 ptr[t] += 1
-            elif op[0] == "die":
+            elif op[0] in ("die", "die_in"):
                 ptr[t] += 1
             else:
                 break
